@@ -96,6 +96,7 @@ def run(ctx):
     rule3(ctx, prog, flows, effects, add_edge)
     rule4(ctx, prog, flows, effects, add_node)
     rule5(ctx, prog, flows, add_edge)
+    rule6(ctx, prog, flows, effects, add_edge)
 
 
 # ---------------------------------------------------------------------------------------- R-C01-1
@@ -524,3 +525,132 @@ def rule5(ctx, prog, flows, add_edge):
     cd_u = [a for (a, s) in b.control_deps().get(us[0].bb, ())]
     ok = bool(cd_u) and all(b.dominates(a, vs[0].bb) for a in cd_u) and vs[0].bb not in b.reachable_from(0, avoid=tuple(cd_u)) and us[0].bb not in b.reachable_from(vs[0].bb)
     ctx.require(ok, "R-C01-5", "source-first", "the creation of edge.u is decided and done before the creation of edge.v", "edge.v may be created before edge.u", loc_str(vs[0].span))
+
+
+# ---------------------------------------------------------------------------------------- R-C01-6
+
+
+def rule6(ctx, prog, flows, effects, add_edge):
+    """the complete policy -> outcome table of add_edge, decided on atom-consistent paths"""
+    import pathsens
+
+    ctx.rule("R-C01-6", "policy -> outcome table of add_edge (path-sensitive predicate abstraction): the error kind / silent drop / store writes on every atom-consistent path are those the specs dictate")
+    b = add_edge
+    fl = flows.of(b)
+    marks = {}
+    for (bb, s, v) in errorkind_sites(b):
+        marks.setdefault(bb, set()).add("Err:" + v)
+    for (bb, site, f, kind) in index_events(effects, b):
+        via = site.callee.short.split("::")[-1] if getattr(site, "k", None) == "call" and site.callee else "assign"
+        if via == "add_node":
+            marks.setdefault(bb, set()).add("add_node")
+        elif f in EDGE and kind in ("HashMap::insert", "Vec::push"):
+            marks.setdefault(bb, set()).add("%s:%s" % (f, kind.split("::")[-1]))
+        elif f == "predecessors" and kind == "HashSet::insert":
+            marks.setdefault(bb, set()).add("PRED")
+        elif f == "successors" and kind == "HashSet::insert":
+            marks.setdefault(bb, set()).add("SUCC@%d" % bb)
+
+    def kills(bb):
+        t = b.blocks[bb].term
+        if t.k == "call" and t.callee and t.callee.short.endswith("Graph::add_node"):
+            return ["nodes_map"]
+        return []
+
+    ex = pathsens.Explorer(b, fl, prog, markers=marks, kills=kills)
+    outs = ex.run()
+    if ex.truncated or not outs:
+        ctx.undecided("R-C01-6", "table", "state space too large")
+        return
+    keys = set()
+    for (bb, f, m) in outs:
+        for k, v in f:
+            keys.add(k)
+
+    def find(pred):
+        r = [k for k in keys if pred(k)]
+        return r
+
+    def one(pred, what):
+        r = find(pred)
+        if len(r) != 1:
+            raise KeyError("%s (found %d)" % (what, len(r)))
+        return r[0]
+
+    try:
+        SL = one(lambda k: isinstance(k, str) and k.endswith("specs.self_loops"), "atom specs.self_loops")
+        MULTI = one(lambda k: isinstance(k, str) and k.endswith("specs.multi_edges"), "atom specs.multi_edges")
+        DIR = one(lambda k: isinstance(k, str) and k.endswith("specs.directed"), "atom specs.directed")
+        LOOP = one(lambda k: isinstance(k, str) and k.startswith("eq(") and ".u" in k and ".v" in k, "atom eq(edge.u, edge.v)")
+        SLS = one(lambda k: isinstance(k, tuple) and k[1].endswith("specs.self_loops_false_strategy"), "atom self_loops_false_strategy")
+        MNS = one(lambda k: isinstance(k, tuple) and k[1].endswith("specs.missing_node_strategy"), "atom missing_node_strategy")
+        DED = one(lambda k: isinstance(k, tuple) and k[1].endswith("specs.edge_dedupe_strategy"), "atom edge_dedupe_strategy")
+        CU = one(lambda k: isinstance(k, str) and k.startswith("contains_key(") and k.endswith(".u)"), "atom contains_key(nodes_map, edge.u)")
+        CV = one(lambda k: isinstance(k, str) and k.startswith("contains_key(") and k.endswith(".v)"), "atom contains_key(nodes_map, edge.v)")
+    except KeyError as e:
+        ctx.violation("R-C01-6", "atoms", "add_edge no longer branches on the expected policy predicate: %s" % e, loc_str(b.span))
+        return
+    lookups = sorted(find(lambda k: isinstance(k, str) and "get_edge_by_indexes" in k and k.startswith("is_ok(")))
+    dup_rows = [dict(f) for (bb, f, m) in outs if "Err:DuplicateEdge" in m]
+    EX1 = EX2 = None
+    c1 = [k for k in lookups if dup_rows and all(f.get(k) is True for f in dup_rows)]
+    if len(c1) == 1:
+        EX1 = c1[0]
+    rest = [k for k in lookups if k != EX1]
+    if len(lookups) == 1:
+        EX2 = EX1
+    elif len(rest) == 1:
+        EX2 = rest[0]
+    if EX1 is None or EX2 is None:
+        ctx.violation("R-C01-6", "atoms", "the duplicate decision / the single-edge store decision is not based on a pair lookup (lookups: %s)" % lookups, loc_str(b.span))
+        return
+    universe = {SL: [False, True], MULTI: [False, True], DIR: [False, True], LOOP: [False, True], EX1: [False, True], EX2: [False, True],
+                SLS: ["Error", "Drop"], MNS: ["Error", "Create"], DED: ["Error", "KeepFirst", "KeepLast"]}
+    OBS = ("Err:SelfLoopsFound", "Err:NodeNotFound", "Err:DuplicateEdge", "PRED", "edges:insert", "edges_map:insert", "edges:push", "edges_map:push")
+    problems = []
+    rows = 0
+    table = {}
+    for (bb, f, m) in outs:
+        fd = dict(f)
+        nsucc = len([x for x in m if x.startswith("SUCC@")])
+        obs = frozenset(x for x in m if x in OBS)
+        for comp in pathsens.completions(f, universe):
+            rows += 1
+            exp = None
+            if not comp[SL] and comp[LOOP]:
+                exp = frozenset({"Err:SelfLoopsFound"}) if comp[SLS] == "Error" else frozenset()
+                exp_succ = 0
+            else:
+                if comp[MNS] == "Error":
+                    cu, cv = fd.get(CU), fd.get(CV)
+                    if cu is False or cv is False:
+                        exp = frozenset({"Err:NodeNotFound"})
+                        exp_succ = 0
+                    elif "add_node" in m:
+                        problems.append("a node is created although missing_node_strategy == Error")
+                        continue
+                if exp is None:
+                    if comp[DED] == "Error" and not comp[MULTI] and comp[EX1]:
+                        exp = frozenset({"Err:DuplicateEdge"})
+                        exp_succ = 0
+                    else:
+                        e = set()
+                        if comp[DIR]:
+                            e.add("PRED")
+                        if comp[MULTI]:
+                            e |= {"edges:push", "edges_map:push"}
+                        elif not comp[EX2] or comp[DED] == "KeepLast":
+                            e |= {"edges:insert", "edges_map:insert"}
+                        exp = frozenset(e)
+                        exp_succ = 1 if comp[DIR] else 2
+            if exp is not None and (obs != exp or nsucc != exp_succ):
+                show = {str(k).split("specs.")[-1].replace("')", ""): (sorted(v)[0] if isinstance(v, frozenset) else v) for k, v in comp.items()}
+                problems.append("under %s add_edge does %s + %d successor updates, the specs dictate %s + %d" % (show, sorted(obs), nsucc, sorted(exp), exp_succ))
+    ctx.counters["add_edge_paths"] = len(outs)
+    ctx.counters["add_edge_table_rows"] = rows
+    ctx.floor("R-C01-6", "add_edge_paths", len(outs), 60)
+    uniq = []
+    for p_ in problems:
+        if p_ not in uniq:
+            uniq.append(p_)
+    ctx.require(not uniq, "R-C01-6", "table", "all %d atom-consistent paths x completions (%d rows) of add_edge produce exactly the outcome the specs dictate" % (len(outs), rows), "add_edge deviates from the policy table in %d row(s), e.g. %s" % (len(uniq), "; ".join(uniq[:2])), loc_str(b.span))
